@@ -248,6 +248,32 @@ fn binop_driver(t: &Tier, m: &mut Matrix, sink: &mut Sink, ops: &[&'static str],
             }
         }
     }
+    // long subject, short operand held in narrow storage words (one to four u8 / u16 / u32 words):
+    // the operand's storage is then not a whole number of the subject's words
+    {
+        let narrow = vec![Kind::F8x1, Kind::F8x2, Kind::F8x3, Kind::F8x4, Kind::F16x1, Kind::F16x4, Kind::F32x1, Kind::F32x4];
+        let mut k = 0usize;
+        for n in [65usize, 128, 129, 192, 200, 256, 257] {
+            for ylen in [1usize, 7, 8, 12, 16, 24, 31, 32, 33, 64] {
+                for xv in 0..2 {
+                    k += 1;
+                    if t.quick && k % 2 == 0 {
+                        continue;
+                    }
+                    let op = ops[k % ops.len()];
+                    let is_div = matches!(op, "div" | "rem" | "div_rem");
+                    if is_div && t.quick && n > 200 && k % 4 != 1 {
+                        continue;
+                    }
+                    let x = if xv == 0 { random_bits_uniform(&mut rng, n) } else { ones(n) };
+                    let mut y = if k % 3 == 0 { ones(ylen) } else { random_bits_uniform(&mut rng, ylen) };
+                    y[ylen - 1] = 1;
+                    let forms: &[&str] = if op == "div_rem" { &[""] } else { &FORMS6 };
+                    sink.emit(m.run(&Case::new(op, x).y(YSpec::Bits(y)).forms(forms).yk(narrow.clone())));
+                }
+            }
+        }
+    }
     // products of (near-)powers of two at every pair of word boundaries: partial products that are exactly
     // 2^w, 2^(2w) (the cross terms of the widening multiply of each word type, their carries into the next word)
     if ops.contains(&"mul") {
@@ -784,6 +810,59 @@ pub fn drive_c14(t: &Tier, m: &mut Matrix, sink: &mut Sink) {
             }
         }
     }
+    // values with all-zero digit groups: a * 10^e + b (chunked decimal conversion drops or mis-pads a
+    // zero chunk), and the same idea for octal groups that straddle a storage-word boundary
+    {
+        let p = |e: u32| 10u128.pow(e);
+        let mut vals: Vec<u128> = Vec::new();
+        for e in [9u32, 10, 18, 19, 20, 27, 36, 38] {
+            for a in [1u128, 2, 9, 42, 99] {
+                for b in [0u128, 1, 7, 10, 999_999_999] {
+                    if let Some(v) = a.checked_mul(p(e)).and_then(|v| v.checked_add(b)) {
+                        vals.push(v);
+                    }
+                }
+            }
+        }
+        vals.push(p(19) * 42 + p(18));
+        vals.push(p(38) + p(19));
+        vals.push(p(38) * 3 + 5);
+        vals.push(p(19) - 1);
+        vals.push(p(38) - 1);
+        vals.sort();
+        vals.dedup();
+        for (i, v) in vals.iter().copied().enumerate() {
+            let sig = 128 - v.leading_zeros() as usize;
+            for n in [sig, 128, 129, 130, 200, 256] {
+                if n < sig || (t.quick && (i + n) % 3 != 0 && n != 129) {
+                    continue;
+                }
+                let mut x = int_bits(v, 128);
+                x.resize(n, 0);
+                for (j, base) in ['d', 'd', 'o'].iter().copied().enumerate() {
+                    let mut sp = plain(base);
+                    sp.zero = j == 1;
+                    sp.width = if j == 1 { Some(45) } else { None };
+                    sink.emit(m.run(&Case::new("fmt", x.clone()).a(Args { fmt: Some(sp), ..Default::default() })));
+                }
+            }
+        }
+        // a top octal / hex digit that straddles a word boundary above an all-zero word
+        for n in [65usize, 66, 67, 129, 130, 131, 193, 257, 258] {
+            for top in 1..(1usize << (n - (n - 1) / 64 * 64).min(3)) {
+                let mut x = zeros(n);
+                let base_i = (n - 1) / 64 * 64;
+                for k in 0..3 {
+                    if (top >> k) & 1 == 1 && base_i + k < n {
+                        x[base_i + k] = 1;
+                    }
+                }
+                for base in ['o', 'x', 'd', 'b'] {
+                    sink.emit(m.run(&Case::new("fmt", x.clone()).a(Args { fmt: Some(plain(base)), ..Default::default() })));
+                }
+            }
+        }
+    }
     let per = t.q(3, 30);
     let xs = if t.quick { sample(&mut rng, &xs, 500) } else { xs };
     for x in xs {
@@ -961,6 +1040,26 @@ pub fn drive_c15(t: &Tier, m: &mut Matrix, sink: &mut Sink) {
             }
         }
     }
+    // several offending characters in one string, far apart (in different storage words' worth of digits):
+    // the index reported is that of the FIRST one whatever the order in which the digits are processed
+    for (op, per, digits) in [("from_binary", 1usize, chars("01")), ("from_hex", 4, hexd.clone())] {
+        for n in [2usize, 5, 16, 17, 18, 32, 33, 34, 40, 64, 65, 66, 100, 129, 200] {
+            for rep in 0..t.q(2, 6) {
+                let mut s: Vec<String> = (0..n).map(|_| rng.pick(&digits).clone()).collect();
+                let k = 2 + rep % 2;
+                let mut ps: Vec<usize> = (0..k).map(|_| rng.below(n)).collect();
+                if rep == 0 {
+                    ps = vec![n / 3, n - 1];
+                }
+                for p in &ps {
+                    s[*p] = rng.pick(&bad).to_string();
+                }
+                let a = Args { chars: Some(s), byval: rep % 2 == 0, ..Default::default() };
+                let ks: Vec<Kind> = ALL_KINDS.iter().copied().filter(|k| k.admits(n * per)).collect();
+                sink.emit(m.run(&Case::new(op, vec![]).a(a).capsens().xk(ks)));
+            }
+        }
+    }
     // parse(format(v)) has the value of v: {:b} {:x} {:X} of lattice values, re-parsed
     let xs = pool(t, &mut rng, t.q(129, 257), true, 1);
     for x in sample(&mut rng, &xs, t.q(60, 1500)) {
@@ -1030,6 +1129,35 @@ pub fn drive_c11(t: &Tier, m: &mut Matrix, sink: &mut Sink) {
             sink.emit(m.run(&Case::new("to_int", x.clone()).a(a)));
         }
     }
+    // values whose low half-word / word / integer-width bits are all zero: a conversion that looks at
+    // the low storage word only, or stops at the first zero word, gets these wrong
+    for ty in ALL_INTS {
+        let w = ty.width();
+        let mut es: Vec<usize> = vec![w / 2, w - 1, w, w + 1, 32, 63, 64, 65, 127, 128];
+        es.sort();
+        es.dedup();
+        for e in es {
+            for n in [e + 1, e + 2, 64, 65, 128, 129, 200, 256] {
+                if n <= e {
+                    continue;
+                }
+                for second in [None, Some(e / 2), Some(n - 1)] {
+                    let mut x = zeros(n);
+                    x[e] = 1;
+                    if let Some(s) = second {
+                        if s == e || s >= n {
+                            continue;
+                        }
+                        x[s] = 1;
+                    }
+                    for byval in [false, true] {
+                        let a = Args { ity: Some(ty), n: Some(w as u128), byval, ..Default::default() };
+                        sink.emit(m.run(&Case::new("to_int", x.clone()).a(a)));
+                    }
+                }
+            }
+        }
+    }
 }
 
 /// Bit <-> bool / integer conversions (C11, last clause).  Returns events for the "bit" pseudo-register.
@@ -1090,6 +1218,17 @@ pub fn drive_c12(t: &Tier, m: &mut Matrix, sink: &mut Sink) {
         }
         sink.emit(m.run(&Case::new("new_inner", x.clone())));
         sink.emit(m.run(&Case::new("clone", x.clone())));
+        // Clone::clone_from into a destination that is longer / shorter / differently prepared
+        {
+            let n = x.len();
+            let rb = rng.below(n + 2);
+            m.all_preps = true;
+            for dl in [0usize, n / 2, n, n + 1, n + 64, n + 70, rb, 200] {
+                let dest = if dl % 2 == 0 { ones(dl) } else { random_bits(&mut rng, dl) };
+                sink.emit(m.run(&Case::new("clone_from", dest).y(YSpec::Bits(x.clone()))));
+            }
+            m.all_preps = false;
+        }
         // beyond the listed properties: a clone is independent of its source; Debug never panics
         sink.emit(m.run(&Case::new("clone_push", x.clone()).a(Args { bit: Some((x.len() % 2) as u8), ..Default::default() })));
         sink.emit(m.run(&Case::new("debug_fmt", x.clone())));
